@@ -850,6 +850,10 @@ def r18e(P, R):
         pos_cmp = [g for g in P.trait_impls("core::cmp::Ord", "cmp") + P.trait_impls("core::cmp::PartialEq", "eq") if (g.self_adt or "").endswith("::Pos") and not g.derived]
         blind = (pos_cmp and not any(fld == "file" for g in pos_cmp for a_, fld in field_reads(g))) or \
                 (eq_impls and not any(fld == "file" for g in eq_impls for a_, fld in field_reads(g)))
+        # ... or by a predicate over the diagnostics (`filter(|e| seen.insert(key(e)))`, `take_while`, ..): every diagnostic produced
+        # by the checker is reported
+        dd += ["`%s` over diagnostics" % c["method"] for c in fi.walk() if c.get("k") == "MethodCall" and c["method"] in ("filter", "skip_while", "take_while", "map_while")
+               and "Error" in norm(c.get("recv_ty", "") or "") and c["args"] and c["args"][0].get("k") == "Closure"]
         # ... or by comparing a diagnostic with the ones already collected (`seen == err`, `list.contains(&err)`)
         for c in fi.walk():
             if c.get("k") == "Binary" and c.get("op") in ("==", "!=") and any("Error" in norm((c[s_].get("t") or "")) for s_ in ("l", "r")):
@@ -1200,6 +1204,40 @@ def r18i(P, R):
         R.undecided("R18-h", "schema-before-operations", "no function registers both schema and operation files")
 
 
+def r18j(P, R):
+    """the file index carried by every position of a parsed document is the index of *that* document's file: where the CLI parses a
+    document, the current file of Pos is set in the same per-file region (the loop body or closure that handles that file, or the
+    function when there is none) before the parse - directly or inside a call made there (a FileStore method that sets it).  A
+    parse in a region that sets nothing inherits whatever file was registered last."""
+    setter = "nitrogql_ast::current_file::set_current_file_of_pos"
+    n = 0
+    for f0 in sorted(P.fns.values(), key=lambda g: g.path):
+        if not _live(f0) or f0.crate != "nitrogql_cli" or f0.kind not in ("Fn", "AssocFn"):
+            continue
+        if not any(x.get("k") == "Call" and (call_name(x) or "").startswith("nitrogql_parser::") and "parse_" in (call_name(x) or "") for x in f0.walk()):
+            continue
+        f = inlined(P, f0, depth=2, pred=lambda g: g.crate == "nitrogql_cli")
+        acc = f.nodes()
+        sets = [i for i, (x, _) in enumerate(acc) if x.get("k") == "Call" and call_name(x) == setter]
+        for i, (x, _) in enumerate(acc):
+            if not (x.get("k") == "Call" and (call_name(x) or "").startswith("nitrogql_parser::") and "parse_" in (call_name(x) or "")):
+                continue
+            n += 1
+            region = next((c[1] for c in enclosing_contexts(f, i) if c[0] in ("loop", "closure")), None)
+            inside = {id(y) for y in subnodes(region)} if region is not None else None
+            governed = [j for j in sets if j < i and (inside is None or id(acc[j][0]) in inside)]
+            key = "file-index-at-parse:%s#%d" % (short(f0.path), n)
+            if governed:
+                R.holds("R18-h", key, "the current file of Pos is set in the region that parses the document", loc=f0.loc())
+            elif not sets and not any(call_name(y) == setter for g in P.fns.values() if g.crate == "nitrogql_cli" for y in g.walk() if y.get("k") == "Call"):
+                R.undecided("R18-h", key, "the CLI does not call set_current_file_of_pos: the file index of positions is set in a way this rule does not read", loc=f0.loc())
+            else:
+                R.violated("R18-h", key, "%s parses a document in a per-file region that does not set the current file of Pos before the parse: every position of "
+                           "that document carries the index of whichever file was registered last, so diagnostics name the wrong file" % f0.path, loc=f0.loc())
+    if not n:
+        R.undecided("R18-h", "file-index-at-parse", "no parse call found in the CLI")
+
+
 def r18pc(P, R):
     from facts import Program
     SC = Program(harness.selfcheck_facts())
@@ -1209,7 +1247,7 @@ def r18pc(P, R):
     R.check("R18-pc", "control:fs-write", set(wr) == {"writes", "opens_without_truncate"}, "file-system-write control detected", "self-check: fs::write in the control crate is seen as %s" % wr)
 
 
-RULES = [("R18-pc", r18pc), ("R18-a", r18a), ("R18-b", r18b), ("R18-c", r18c), ("R18-c", gate), ("R18-d", r18d), ("R18-e", r18e), ("R18-f", r18f), ("R18-g", r18g), ("R18-h", r18h), ("R18-h", r18i)]
+RULES = [("R18-pc", r18pc), ("R18-a", r18a), ("R18-b", r18b), ("R18-c", r18c), ("R18-c", gate), ("R18-d", r18d), ("R18-e", r18e), ("R18-f", r18f), ("R18-g", r18g), ("R18-h", r18h), ("R18-h", r18i), ("R18-h", r18j)]
 EXPLANATION = (
     "Call-graph and control-context facts that hold on all executions: (R18-a) one process::exit site whose code is 0 exactly in "
     "the Ok arm, every diagnostic-recording site lies on a path that returns Err, check succeeds only under errors.is_empty(); "
